@@ -295,6 +295,7 @@ func C11(c *vlib.Ctx) {
 	dir := c.Scratch()
 	c11BlankSources(c, dir)
 	c11Concurrent(c, dir)
+	c11ReloadRemovedRoute(c, dir)
 	nCfg := c.N(36, 5000)
 	authorizedSeen := 0
 	for ci := 0; ci < nCfg; ci++ {
